@@ -52,6 +52,7 @@ def setup(ctx):
     ctx.require("monitor", "store_faults_fired", 6)
     ctx.require("monitor", "table_comparisons", 400)
     ctx.require("monitor", "l0_steps", 2000)
+    ctx.require("monitor", "many_hosts_verifications", 3000)
     ctx.require("monitor", "redirect_hops_checked", 20)
 
 
@@ -166,6 +167,61 @@ def run_l0(ctx):
                     first_seen[key] = r[3]
             ctx.case(("L0", tuple(o for o, _, _ in hist), tuple(outcomes)), True, sample={"level": "L0", "history": [list(map(str, x)) for x in hist], "outcomes": outcomes})
         ctx.count("exhaustive_scope", f"L0 depth {depth} over {len(ops)} operations" + (" (1/6 sample)" if ctx.quick() else ""))
+    finally:
+        shutil.rmtree(tmp, ignore_errors=True)
+
+
+def run_l0_many_hosts(ctx):
+    """One store object for the lifetime of a long-running client: thousands of hosts are pinned through it, then
+    everything is asked again with the pinned and with another certificate - the early hosts too, and after a
+    re-trust / revoke somewhere in the middle.  The answer is a function of the pin map, whatever the object remembers."""
+    from cryptography import x509
+
+    from nauyaca.security.tofu import TOFUDatabase
+
+    P = pool()
+    cobj = {k: x509.load_der_x509_certificate(P[k].der) for k in ("ec1", "ec2", "rsa", "ed")}
+    names = ("ec1", "ec2", "rsa", "ed")
+    rng = ctx.rng("c03-many")
+    tmp = tempfile.mkdtemp(prefix="vf-c03-many-")
+    try:
+        db = TOFUDatabase(Path(os.path.join(tmp, "many.db")))
+        n = ctx.pick(1500, 70000)
+        model = {}
+
+        def ask(h, c, why):
+            r = tuple(db.verify(h[0], h[1], cobj[c]))
+            exp = (True, "first_use") if h not in model else ((True, "") if model[h] == c else (False, "changed"))
+            ctx.count("monitor", "l0_steps")
+            ctx.count("monitor", "many_hosts_verifications")
+            if r != exp:
+                ctx.violation(f"verify-wrong:{exp[1] or 'match'}:store-object-with-many-hosts", f"verify({h[0]}:{h[1]}, {c}) returned {r}, the pin map says {exp} ({why})",
+                              {"host": h, "presented": c, "pinned": model.get(h), "hosts_pinned_through_this_object": len(model), "when": why})
+            return r
+
+        hosts = [(f"host{j}.example", 1965 + (j % 3)) for j in range(n)]
+        for j, h in enumerate(hosts):
+            c = names[j % 4]
+            ask(h, c, "first contact")
+            db.trust(h[0], h[1], cobj[c])
+            model[h] = c
+            if j % 97 == 0:
+                ask(h, names[(j + 1) % 4], "right after pinning")
+        sample = hosts[:600] + rng.sample(hosts, min(len(hosts), 600))
+        for h in sample:
+            ask(h, model[h], "return of a pinned host, same certificate")
+            ask(h, names[(names.index(model[h]) + 1 + rng.randrange(3)) % 4], "return of a pinned host, another certificate")
+        for h in rng.sample(hosts, 200):
+            if rng.random() < 0.5:
+                c = names[rng.randrange(4)]
+                db.trust(h[0], h[1], cobj[c])
+                model[h] = c
+            else:
+                db.revoke(h[0], h[1])
+                model.pop(h, None)
+            for c in names:
+                ask(h, c, "after a re-trust or revoke through the same object")
+        ctx.case(("L0-many-hosts", n > 4096, n > 65536), True, sample={"level": "L0", "hosts": n, "verifications": "see counter many_hosts_verifications"})
     finally:
         shutil.rmtree(tmp, ignore_errors=True)
 
@@ -968,3 +1024,5 @@ def run(ctx):
         run_client_modes(ctx)
     if ctx.mine(6) or ctx.nshards == 1:
         run_store_unavailable_at_construction(ctx)
+    if ctx.mine(7) or ctx.nshards == 1:
+        run_l0_many_hosts(ctx)
